@@ -70,7 +70,7 @@ def plan(rng, idx, tier):
     mid = 0
     for i in range(nslots):
         r = rng.sub('slot', i)
-        triples = gen_triples(r, r.randrange(6))
+        triples = gen_triples(r, r.randrange(6) if not r.chance(0.05) else 6 + r.randrange(10))
         top = None
         if r.chance(0.4):
             top = r.pick(VARS)
@@ -83,7 +83,7 @@ def plan(rng, idx, tier):
         slots.append({'triples': triples, 'top': top, 'markers': markers, 'meta': meta})
     ops = []
     r = rng.sub('ops')
-    for k in range(1 + r.randrange(10)):
+    for k in range(1 + (r.randrange(10) if not r.chance(0.05) else 10 + r.randrange(15))):
         kind = r.weighted([('or', 3), ('ior', 3), ('sub', 3), ('isub', 3), ('set_top', 2), ('construct', 1)])
         op = {'op': kind, 'i': r.randrange(4), 'j': r.randrange(4), 'dst': r.randrange(4),
               'observe': r.chance(0.6)}
